@@ -24,9 +24,24 @@ def gen_history(rng, length):
     ops = []
     for _ in range(length):
         now += rng.choice([0, 1, 3, 9])
-        m = rng.choices(['set', 'add', 'get', 'touch', 'delete', 'pop', 'has_key', 'incr', 'clear', 'make_key'],
-                        [8, 4, 8, 3, 3, 2, 3, 4, 0.3, 1])[0]
+        m = rng.choices(['set', 'add', 'get', 'touch', 'delete', 'pop', 'has_key', 'incr', 'clear', 'make_key',
+                         'read', 'expire', 'cull', 'evict', 'stats', 'backend_timeout'],
+                        [8, 4, 8, 3, 3, 2, 3, 4, 0.3, 1, 1, 0.7, 0.5, 0.7, 0.5, 1])[0]
         op = {'m': m, 'now': now, 'key': rng.choice(KEYS), 'version': rng.choice(VERSIONS)}
+        if m in ('set', 'add') and rng.random() < 0.3:
+            op['tag'] = rng.choice(['red', 'blue'])
+        if m == 'evict':
+            op['tag'] = rng.choice(['red', 'blue', None])
+        if m == 'stats':
+            op['enable'] = rng.choice([0, 1])
+            op['reset'] = rng.choice([0, 1])
+        if m == 'backend_timeout':
+            op['timeout'] = rng.choice(TIMEOUTS)
+        if m == 'incr' and rng.random() < 0.4:
+            op['via'] = 'decr'
+        if m in ('expire', 'cull', 'evict', 'stats', 'backend_timeout'):
+            op.pop('key')
+            op.pop('version')
         if m in ('set', 'add'):
             op['v'] = rng.choice(VALS)
             op['timeout'] = rng.choice(TIMEOUTS)
@@ -60,6 +75,30 @@ def acceptor(hist, io):
         if m == 'clear':
             store.clear()
             continue
+        if m in ('expire', 'cull'):
+            for kk in [kk for kk, it in store.items() if it[1] is not None and it[1] < now]:
+                del store[kk]
+            continue
+        if m == 'evict':
+            for kk in [kk for kk, it in store.items() if op.get('tag') is not None and it[2] == op.get('tag')]:
+                del store[kk]
+            continue
+        if m == 'stats':
+            continue
+        if m == 'backend_timeout':
+            t = op.get('timeout', 'd')
+            if t == 'd':
+                t = cfg.get('deftimeout', 300)
+                t = 'n' if t is None else t
+            if t == 'n':
+                ok = res == 'n'
+            elif t > 0:
+                ok = res == 'i%d' % t
+            else:
+                ok = res.startswith('i-')
+            if not ok:
+                return 'op #%d get_backend_timeout(%r) gave %s' % (idx, op.get('timeout'), res)
+            continue
         ver = op.get('version') if op.get('version') is not None else cfg.get('version', 1)
         key = (ver, op.get('key'))
         if m == 'make_key':
@@ -70,7 +109,7 @@ def acceptor(hist, io):
         it = store.get(key)
         state = 'absent' if it is None else 'live' if (it[1] is None or now < it[1]) else 'dead' if it[1] < now else 'edge'
         if m == 'set':
-            store[key] = [op['v'], exp(op['timeout'], now)]
+            store[key] = [op['v'], exp(op['timeout'], now), op.get('tag')]
             if res != 'T':
                 return 'op #%d set must report success' % idx
         elif m == 'add':
@@ -80,14 +119,19 @@ def acceptor(hist, io):
             elif state in ('absent', 'dead'):
                 if res != 'T':
                     return 'op #%d add on a missing/expired key must return True' % idx
-                store[key] = [op['v'], exp(op['timeout'], now)]
+                store[key] = [op['v'], exp(op['timeout'], now), op.get('tag')]
             elif res == 'T':
-                store[key] = [op['v'], exp(op['timeout'], now)]
+                store[key] = [op['v'], exp(op['timeout'], now), op.get('tag')]
         elif m == 'get':
             if state == 'live' and res != rv(it[0]):
                 return 'op #%d get returned %s, stored %s' % (idx, res[:40], rv(it[0])[:40])
             if state in ('absent', 'dead') and res != 'D':
                 return 'op #%d get of a missing/expired key must return the default (got %s)' % (idx, res[:40])
+        elif m == 'read':
+            if state == 'live' and res not in (rv(it[0]), 'h' + (it[0].hex() if isinstance(it[0], bytes) else '?')):
+                return 'op #%d read returned %s, stored %s' % (idx, res[:40], rv(it[0])[:40])
+            if state in ('absent', 'dead') and res != '!KeyError':
+                return 'op #%d read of a missing/expired key must raise KeyError (got %s)' % (idx, res[:40])
         elif m == 'has_key':
             if state == 'live' and res != 'T' or state in ('absent', 'dead') and res != 'F':
                 return 'op #%d has_key wrong (%s, key is %s)' % (idx, res, state)
